@@ -45,3 +45,245 @@ package gogen
 //@ requires OperandWfFor(V.Underlying(), pv)
 //@ requires imp(typeis(V.Underlying(), *types.Basic) && V.Underlying().(*types.Basic).Kind() == 22 && pv != nil && pv.CVal != nil, !cIsInt(pv.CVal))
 //@ ensures result == UntypedAssignOK(V.Underlying(), T.Underlying(), pv)
+
+// ---------------------------------------------------------------------------
+// codebuild.go — statement emission (C02) and block contexts (C16)
+
+//@ func (*Package).setStmtComments
+//@ prop C02
+//@ assigns p.commentedStmts, map(p.commentedStmts)
+//@ ensures p.commentedStmts != nil && in(p.commentedStmts, stmt) && p.commentedStmts[stmt] == comments
+//@ ensures imp(old(p.commentedStmts) != nil, p.commentedStmts == old(p.commentedStmts))
+
+//@ func (*CodeBuilder).emitStmt
+//@ prop C02 C16
+//@ requires p.pkg != nil
+//@ assigns p.comments, p.current.label, p.current.label.Stmt, p.current.stmts, elems(p.current.stmts), p.pkg.commentedStmts, map(p.pkg.commentedStmts)
+//@ ensures len(p.current.stmts) == old(len(p.current.stmts)) + 1
+//@ ensures forall(i, 0, old(len(p.current.stmts)), p.current.stmts[i] == old(p.current.stmts[i]))
+//@ ensures p.current.label == nil
+//@ ensures imp(old(p.current.label) == nil, p.current.stmts[len(p.current.stmts)-1] == stmt)
+//@ ensures imp(old(p.current.label) != nil, p.current.stmts[len(p.current.stmts)-1] == asI(old(p.current.label), ast.Stmt) && old(p.current.label).Stmt == stmt)
+//@ ensures imp(old(p.comments) != nil, in(p.pkg.commentedStmts, stmt) && p.pkg.commentedStmts[stmt] == old(p.comments))
+//@ ensures p.comments == ite(old(p.comments) != nil && old(p.commentOnce), nil, old(p.comments))
+
+//@ func (*CodeBuilder).popStmt
+//@ prop C02 C16
+//@ requires len(p.current.stmts) >= 1
+//@ assigns p.current.stmts
+//@ ensures len(p.current.stmts) == old(len(p.current.stmts)) - 1
+//@ ensures result == old(p.current.stmts[len(p.current.stmts)-1])
+//@ ensures forall(i, 0, len(p.current.stmts), p.current.stmts[i] == old(p.current.stmts[i]))
+
+//@ func (*CodeBuilder).startStmtAt
+//@ prop C02 C16
+//@ requires p.pkg != nil
+//@ assigns p.comments, p.current.label, p.current.label.Stmt, p.current.stmts, elems(p.current.stmts), p.pkg.commentedStmts, map(p.pkg.commentedStmts)
+//@ ensures result == old(len(p.current.stmts))
+//@ ensures len(p.current.stmts) == old(len(p.current.stmts)) + 1
+//@ ensures forall(i, 0, old(len(p.current.stmts)), p.current.stmts[i] == old(p.current.stmts[i]))
+//@ ensures imp(old(p.current.label) == nil, p.current.stmts[len(p.current.stmts)-1] == stmt)
+
+//@ func (*CodeBuilder).commitStmt
+//@ prop C02 C16
+//@ requires 0 <= idx && idx < len(p.current.stmts)
+//@ assigns elems(p.current.stmts)
+//@ ensures len(p.current.stmts) == old(len(p.current.stmts))
+//@ ensures forall(i, 0, idx, p.current.stmts[i] == old(p.current.stmts[i]))
+//@ ensures forall(i, idx, len(p.current.stmts)-1, p.current.stmts[i] == old(p.current.stmts[i+1]))
+//@ ensures p.current.stmts[len(p.current.stmts)-1] == old(p.current.stmts[idx])
+
+//@ func (*CodeBuilder).clearBlockStmt
+//@ prop C16
+//@ assigns p.current.stmts
+//@ ensures result == old(p.current.stmts) && p.current.stmts == nil
+
+//@ func (*CodeBuilder).startBlockStmt
+//@ prop C16
+//@ requires old != nil && old != addr(p.current.codeBlockCtx)
+//@ requires imp(src != nil, len(src) >= 1 && src[0] != nil)
+//@ assigns p.current.codeBlockCtx, *old
+//@ ensures *old == old(p.current.codeBlockCtx)
+//@ ensures p.current.codeBlock == current && p.current.base == old(len(p.stk.data)) && p.current.stmts == nil && p.current.label == nil && p.current.flows == 0
+//@ ensures p.current.scope != nil && p.current.scope.Parent() == old(p.current.scope)
+//@ ensures result == p
+
+//@ func (*CodeBuilder).endBlockStmt
+//@ prop C16
+//@ requires old != nil && old != addr(p.current.codeBlockCtx) && p.pkg != nil
+//@ requires 0 <= p.current.base && p.current.base <= len(p.stk.data)
+//@ assigns p.current.codeBlockCtx, p.stk.data, p.comments, p.current.label.Stmt, elems(p.current.stmts), p.pkg.commentedStmts, map(p.pkg.commentedStmts)
+//@ ensures len(p.stk.data) == old(p.current.base)
+//@ ensures forall(i, 0, len(p.stk.data), p.stk.data[i] == old(p.stk.data[i]))
+//@ ensures p.current.codeBlockCtx == old(*old)
+//@ ensures result1 == old(p.current.flows)
+//@ ensures imp(old(p.current.label) == nil, result0 == old(p.current.stmts))
+//@ ensures forall(i, 0, old(len(p.current.stmts)), result0[i] == old(p.current.stmts[i]))
+//@ ensures imp(old(p.current.label) != nil, len(result0) == old(len(p.current.stmts)) + 1 && result0[len(result0)-1] == asI(old(p.current.label), ast.Stmt) && typeis(old(p.current.label).Stmt, *ast.EmptyStmt))
+
+//@ func (*CodeBuilder).startVBlockStmt
+//@ prop C16
+//@ requires old != nil
+//@ assigns p.current.codeBlock, p.current.scope, *old
+//@ ensures old.codeBlock == old(p.current.codeBlock) && old.scope == old(p.current.scope)
+//@ ensures p.current.codeBlock == current && p.current.scope != nil && p.current.scope.Parent() == old(p.current.scope)
+//@ ensures result == p
+
+//@ func (*CodeBuilder).endVBlockStmt
+//@ prop C16
+//@ requires old != nil
+//@ assigns p.current.codeBlock, p.current.scope
+//@ ensures p.current.codeBlock == old(old.codeBlock) && p.current.scope == old(old.scope)
+
+//@ func (*CodeBuilder).startInitExpr
+//@ prop C16
+//@ assigns p.current.codeBlock
+//@ ensures result == old(p.current.codeBlock) && p.current.codeBlock == current
+
+//@ func (*CodeBuilder).endInitExpr
+//@ prop C16
+//@ assigns p.current.codeBlock
+//@ ensures p.current.codeBlock == old
+
+//@ func (*CodeBuilder).MoveLastStmtTo
+//@ prop C02
+//@ requires 0 <= ip && ip < len(p.current.stmts)
+//@ assigns elems(p.current.stmts)
+//@ ensures len(p.current.stmts) == old(len(p.current.stmts))
+//@ ensures forall(i, 0, ip, p.current.stmts[i] == old(p.current.stmts[i]))
+//@ ensures p.current.stmts[ip] == old(p.current.stmts[len(p.current.stmts)-1])
+//@ ensures forall(i, ip+1, len(p.current.stmts), p.current.stmts[i] == old(p.current.stmts[i-1]))
+
+//@ func (*CodeBuilder).ResetStmt
+//@ prop C16
+//@ requires 0 <= p.current.base && p.current.base <= len(p.stk.data)
+//@ assigns p.stk.data
+//@ ensures len(p.stk.data) == p.current.base
+//@ ensures forall(i, 0, len(p.stk.data), p.stk.data[i] == old(p.stk.data[i]))
+
+//@ func (*CodeBuilder).EndStmt
+//@ prop C16 C02
+//@ requires p.pkg != nil
+//@ requires 0 <= p.current.base && p.current.base <= len(p.stk.data)
+//@ requires imp(len(p.stk.data) > p.current.base, p.stk.data[len(p.stk.data)-1] != nil)
+//@ ensures len(p.stk.data) == p.current.base
+//@ ensures p.current.base == old(p.current.base) && p.current.scope == old(p.current.scope) && p.current.codeBlock == old(p.current.codeBlock)
+//@ ensures forall(i, 0, len(p.stk.data), p.stk.data[i] == old(p.stk.data[i]))
+//@ ensures imp(old(len(p.stk.data)) == old(p.current.base), p.current.stmts == old(p.current.stmts))
+//@ ensures imp(old(len(p.stk.data)) > old(p.current.base) && (p.noSkipConst || old(p.stk.data[len(p.stk.data)-1].CVal) == nil), len(p.current.stmts) == old(len(p.current.stmts)) + 1)
+//@ ensures result == p
+
+//@ func insertParams
+//@ prop C16
+//@ readonly
+//@ requires scope != nil
+//@ loop 0 invariant 0 <= i
+
+//@ func (*CodeBuilder).startFuncBody
+//@ prop C16
+//@ requires fn != nil && fn.Func != nil && old != nil && addr(old.codeBlockCtx) != addr(p.current.codeBlockCtx) && old != addr(p.current)
+//@ requires imp(src != nil, len(src) >= 1 && src[0] != nil)
+//@ requires typeis(fn.Type(), *types.Signature) && fn.Type().(*types.Signature).Params() != nil && fn.Type().(*types.Signature).Results() != nil
+//@ assigns p.current, *old
+//@ ensures old.fn == old(p.current.fn) && old.labels == old(p.current.labels) && old.panicCalls == old(p.current.panicCalls)
+//@ ensures old.codeBlockCtx == old(p.current.codeBlockCtx)
+//@ ensures p.current.fn == fn && p.current.labels == nil && p.current.panicCalls == nil
+//@ ensures p.current.codeBlock == asI(fn, codeBlock) && p.current.base == old(len(p.stk.data)) && p.current.stmts == nil && p.current.label == nil && p.current.flows == 0
+//@ ensures p.current.scope != nil && p.current.scope.Parent() == old(p.current.scope)
+//@ ensures result == p
+
+//@ func (*funcBodyCtx).checkLabels
+//@ trusted
+//@ readonly
+
+//@ func (*CodeBuilder).endFuncBody
+//@ prop C16
+//@ requires p.pkg != nil
+//@ requires 0 <= p.current.base && p.current.base <= len(p.stk.data)
+//@ ensures len(p.stk.data) == old(p.current.base)
+//@ ensures forall(i, 0, len(p.stk.data), p.stk.data[i] == old(p.stk.data[i]))
+//@ ensures p.current.fn == old.fn && p.current.labels == old.labels && p.current.panicCalls == old.panicCalls
+//@ ensures p.current.codeBlockCtx == old.codeBlockCtx
+//@ ensures result1 == old(p.current.flows)
+//@ ensures imp(old(p.current.label) == nil, result0 == old(p.current.stmts))
+
+//@ func getPos
+//@ readonly
+
+//@ func getEnd
+//@ readonly
+
+//@ func (*CodeBuilder).panicCodeError
+//@ prop C17
+//@ noreturn
+//@ readonly
+
+//@ func (*CodeBuilder).panicCodeErrorf
+//@ prop C17
+//@ noreturn
+//@ readonly
+
+//@ func (*CodeBuilder).newCodeError
+//@ prop C17
+//@ readonly
+//@ ensures fresh(result) && result.Msg == msg && result.Pos == pos && result.End == end
+
+// ---------------------------------------------------------------------------
+// stmt.go — block-forming constructs (C16 pair laws, C02 node assembly)
+
+//@ func (*blockStmt).End
+//@ prop C16 C02
+//@ requires cb != nil && cb.pkg != nil && StkWf(cb) && addr(p.old) != addr(cb.current.codeBlockCtx)
+//@ requires disjoint(p.old.stmts, cb.current.stmts)
+//@ ensures len(cb.stk.data) == old(cb.current.base)
+//@ ensures CtxIs(cb, old(p.old))
+//@ ensures imp(old(p.old.label) == nil && old(cb.current.label) == nil, StmtsAre(cb, old(p.old)))
+//@ ensures imp(old(p.old.label) == nil && old(cb.current.label) == nil, typeis(LastStmt(cb), *ast.BlockStmt))
+//@ ensures imp(old(p.old.label) == nil && old(cb.current.label) == nil, LastStmt(cb).(*ast.BlockStmt).List == old(cb.current.stmts))
+
+//@ func (*vblockStmt).End
+//@ prop C16
+//@ requires cb != nil
+//@ ensures cb.current.codeBlock == old(p.old.codeBlock) && cb.current.scope == old(p.old.scope)
+//@ ensures cb.current.base == old(cb.current.base) && cb.current.stmts == old(cb.current.stmts) && cb.stk.data == old(cb.stk.data)
+
+//@ func emitIfStmt
+//@ prop C02
+//@ requires cb != nil && cb.pkg != nil && p != nil
+//@ assigns cb.comments, cb.current.label, cb.current.label.Stmt, cb.current.stmts, elems(cb.current.stmts), cb.pkg.commentedStmts, map(cb.pkg.commentedStmts)
+//@ ensures Appended1(cb)
+//@ ensures imp(old(cb.current.label) == nil, typeis(LastStmt(cb), *ast.IfStmt) && LastStmt(cb).(*ast.IfStmt).Init == p.init && LastStmt(cb).(*ast.IfStmt).Cond == p.cond && LastStmt(cb).(*ast.IfStmt).Body == p.body && LastStmt(cb).(*ast.IfStmt).Else == el)
+
+//@ func (*ifStmt).Then
+//@ prop C16 C01
+//@ requires cb != nil && StkWf(cb) && len(cb.stk.data) >= 1 && cb.stk.data[len(cb.stk.data)-1] != nil && cb.stk.data[len(cb.stk.data)-1].Type != nil
+//@ requires addr(p.old2) != addr(cb.current.codeBlockCtx)
+//@ requires imp(src != nil, len(src) >= 1 && src[0] != nil && src[len(src)-1] != nil)
+//@ ensures len(cb.stk.data) == old(len(cb.stk.data)) - 1
+//@ ensures types.AssignableTo(old(cb.stk.data[len(cb.stk.data)-1].Type), asI(types.Typ[types.Bool], types.Type))
+//@ ensures p.cond == old(cb.stk.data[len(cb.stk.data)-1].Val)
+//@ ensures old(len(cb.current.stmts)) <= 1 && imp(old(len(cb.current.stmts)) == 1, p.init == old(cb.current.stmts[0]))
+//@ ensures cb.current.codeBlock == asI(p, codeBlock) && cb.current.base == len(cb.stk.data) && cb.current.stmts == nil
+//@ ensures p.old2.scope == old(cb.current.scope) && p.old2.base == old(cb.current.base) && p.old2.codeBlock == old(cb.current.codeBlock)
+
+//@ func (*ifStmt).Else
+//@ prop C16
+//@ requires cb != nil && cb.pkg != nil && StkWf(cb) && addr(p.old2) != addr(cb.current.codeBlockCtx)
+//@ requires imp(src != nil, len(src) >= 1 && src[0] != nil)
+//@ ensures len(cb.stk.data) == old(cb.current.base)
+//@ ensures old(p.body) == nil && p.body != nil && imp(old(cb.current.label) == nil, p.body.List == old(cb.current.stmts))
+//@ ensures cb.current.codeBlock == asI(p, codeBlock) && cb.current.base == len(cb.stk.data) && cb.current.stmts == nil
+//@ ensures p.old2.scope == old(p.old2.scope) && p.old2.base == old(p.old2.base) && p.old2.codeBlock == old(p.old2.codeBlock)
+
+//@ func (*ifStmt).End
+//@ prop C16 C02
+//@ requires cb != nil && cb.pkg != nil && StkWf(cb) && 0 <= p.old2.base && p.old2.base <= cb.current.base
+//@ requires addr(p.old2) != addr(cb.current.codeBlockCtx) && addr(p.old) != addr(cb.current.codeBlockCtx) && addr(p.old) != addr(p.old2)
+//@ requires disjoint(p.old.stmts, cb.current.stmts) && disjoint(p.old.stmts, p.old2.stmts) && disjoint(p.old2.stmts, cb.current.stmts)
+//@ ensures len(cb.stk.data) == old(p.old2.base)
+//@ ensures CtxIs(cb, old(p.old))
+//@ ensures imp(old(p.old.label) == nil && old(p.old2.label) == nil && old(cb.current.label) == nil, StmtsAre(cb, old(p.old)) && typeis(LastStmt(cb), *ast.IfStmt))
+//@ ensures imp(old(p.old.label) == nil && old(p.old2.label) == nil && old(cb.current.label) == nil && old(p.body) == nil, LastStmt(cb).(*ast.IfStmt).Else == nil && LastStmt(cb).(*ast.IfStmt).Body.List == old(cb.current.stmts))
+//@ ensures imp(old(p.old.label) == nil && old(p.old2.label) == nil && old(cb.current.label) == nil && old(p.body) != nil, LastStmt(cb).(*ast.IfStmt).Body == old(p.body) && LastStmt(cb).(*ast.IfStmt).Else != nil)
+//@ ensures imp(old(p.old.label) == nil && old(p.old2.label) == nil && old(cb.current.label) == nil && old(p.body) != nil && !(old(len(cb.current.stmts)) == 1 && typeis(old(cb.current.stmts[0]), *ast.IfStmt)), typeis(LastStmt(cb).(*ast.IfStmt).Else, *ast.BlockStmt) && LastStmt(cb).(*ast.IfStmt).Else.(*ast.BlockStmt).List == old(cb.current.stmts))
+//@ ensures imp(old(p.old.label) == nil && old(p.old2.label) == nil && old(cb.current.label) == nil && old(p.body) != nil && old(len(cb.current.stmts)) == 1 && typeis(old(cb.current.stmts[0]), *ast.IfStmt), LastStmt(cb).(*ast.IfStmt).Else == old(cb.current.stmts[0]))
